@@ -176,9 +176,10 @@ class Version:
         return self._base_semver < other._base_semver
 
     def __hash__(self):
+        # the build metadata is not significant when comparing versions
         return hash(
             (
-                self._base_semver.to_tuple(),
+                self._base_semver.to_tuple()[:4],
                 self._revision,
             )
         )
